@@ -52,7 +52,7 @@ def _writable(row):
     return all(t in MM.WRITABLE_TYPES for t in types), types
 
 
-FAULTS = ["none", "no", "echo", "framing", "dtr0-stuck", "lock-stuck", "odd-unlock", "short-bank"]
+FAULTS = ["none", "no", "echo", "framing", "dtr0-stuck", "dtr0-skip", "lock-stuck", "odd-unlock", "short-bank"]
 
 
 def h_write(ctx, vi, kind, fault_name, nbytes, force_unlock, ignore_feedback):
@@ -99,6 +99,10 @@ def h_write(ctx, vi, kind, fault_name, nbytes, force_unlock, ignore_feedback):
                dtr2=ctx.fresh("dtr2", 0, 255), banks={bankno: bank},
                dtr0_stuck=fault_name == "dtr0-stuck")
     fstep = ctx.fresh("fault_at", 0, max(0, n - 1)) if fault_name in ("no", "echo", "framing") else None
+    if fault_name == "dtr0-skip":
+        # the unit fails once to advance DTR0 after an accepted memory write (incl. the unlock write)
+        nw = n + (1 if (any(t == "NVM_RW_L" for t in types) or force_unlock) and has_lock else 0)
+        u.dtr0_skip = (ctx.fresh("skip_at", 0, max(0, nw - 1)),)
     wr = [0]
     hit = []
 
@@ -147,12 +151,23 @@ def h_write(ctx, vi, kind, fault_name, nbytes, force_unlock, ignore_feedback):
         pass
     if n == 0:
         faulty = False
+    if fault_name == "dtr0-skip":
+        # a skipped increment after the very last data write leaves the data intact, only DTR0 is short:
+        # the write is not corrupted, so success and failure are both acceptable there
+        last_index = u.nmemwrites
+        pass
     if st == "exc":
         documented = isinstance(r, (MemoryWriteError, ResponseError))
         ctx.prove(documented, "write raised the undocumented %r" % (r,), key=tag + "/exc-type:" + type(r).__name__)
         ctx.prove(faulty and not ignore_feedback, "write to a healthy unit failed with %r" % (r,),
                   key=tag + "/spurious-failure:" + fault_name)
         return "raised:" + type(r).__name__
+    if faulty and not ignore_feedback and fault_name == "dtr0-skip":
+        intact = E.and_(*[E.eq(bank.image[l], data[i]) for i, l in enumerate(locs[:n])]) if n else True
+        others = all(bank.image[l] is before[l] for l in before if l not in locs[:n] and l != 2)
+        ctx.prove(E.and_(intact, others), "DTR0 failed to advance once, the data ended up corrupted, and the "
+                  "write reported success", key=tag + "/silent-failure:dtr0-skip")
+        return "skip-tolerated"
     if faulty and not ignore_feedback:
         ctx.fail("fault '%s' but the write reported success" % fault_name,
                  key=tag + "/silent-failure:" + fault_name)
@@ -231,10 +246,11 @@ def cases(tier):
                 continue
             for fault_name in FAULTS:
                 for fu, ig in ((False, False), (True, False), (False, True)):
-                    if tier == "quick" and (fu or ig) and fault_name not in ("none", "no", "lock-stuck"):
+                    if tier == "quick" and (fu or ig) and fault_name not in ("none", "no", "lock-stuck", "dtr0-skip"):
                         continue
                     if width > 8 and tier == "quick" and (fault_name not in ("none", "no", "dtr0-stuck")
-                                                          or fu or ig or kind == "device"):
+                                                          or fu or ig or kind == "device") \
+                            and not (fault_name == "dtr0-skip" and not fu and not ig and kind == "gear" and width <= 24):
                         continue
                     cs.append(Case("write-%s-%s-%s-%s%s%s" % (row[1], row[2], kind, fault_name,
                                                               "-force" if fu else "", "-nofb" if ig else ""),
